@@ -4,6 +4,7 @@ import (
 	"crypto/sha256"
 	"math/big"
 	"strconv"
+	"strings"
 
 	"github.com/skycoin/skycoin/src/cipher"
 	"github.com/skycoin/skycoin/src/cipher/base58"
@@ -25,7 +26,13 @@ func randBytes(n int) []byte {
 	return b
 }
 
+// long inputs whose value part is short (a run of zero bytes / of '1' characters in front): any length is a byte string
+var longRuns = []int{254, 255, 256, 257, 511, 512, 513, 1022, 1023, 1024, 1025, 1026, 2047, 2048, 2049, 3000}
+
 func someBytes() []byte {
+	if rng.Intn(40) == 0 {
+		return append(make([]byte, longRuns[rng.Intn(len(longRuns))]), randBytes(rng.Intn(6))...)
+	}
 	n := rng.Intn(41)
 	switch rng.Intn(12) {
 	case 0:
@@ -121,6 +128,13 @@ func mutateText(s string) string {
 		}
 	}
 	// a random alphabet text
+	if rng.Intn(40) == 0 {
+		out := []byte(strings.Repeat("1", longRuns[rng.Intn(len(longRuns))]))
+		for i := rng.Intn(6); i > 0; i-- {
+			out = append(out, b58Alphabet[rng.Intn(58)])
+		}
+		return string(out)
+	}
 	n := rng.Intn(60)
 	if rng.Intn(8) == 0 {
 		n = 100 + rng.Intn(150)
